@@ -277,6 +277,9 @@ def main(argv):
                     argv_ = [o["inputs"].get(p) for p in c.params.keys()]
                     if not all(_replayable(v) for v in argv_):
                         continue      # the model has no concrete counterpart for this argument kind: nothing to replay
+                    if getattr(c, "runtime", True) is False:
+                        continue      # no callable counterpart (a C/C++ function that Python cannot call directly, a method
+                        #               verified on a ghost object): the refutation is reported with no-failing-input-found
                     cases.setdefault(fn, []).append(dict(args=argv_, key="counter-model of " + name, sig="counter-model"))
             limit = meta.get("limit_quick", 40) if tier == "quick" else meta.get("limit_thorough", 600)
             rt = run_runtime(scratch, prop, None, tier, seed, limit, cases)
